@@ -37,6 +37,9 @@ type evictOpts struct {
 	gpuDim                  bool    // whole GPUs instead of milli-cpu (requests >= 1)
 	secondNode              bool    // a second node n1 with symbolic free capacity (victims run on n0)
 	strictReclaim           bool    // allow-consolidating-reclaim=false: moved victims count as reclaimed too
+	pendingCpu              float64 // > 0: the pending job's request (overrides the shared one)
+	slackCpu, spareCpu      float64 // > 0: concrete free cpu on n0 / concrete cpu of n1 (instead of symbolic)
+	elasticAtMinimum        bool    // victim v0 has one running and one pending pod, minimum 1 (it runs at its minimum size)
 	signatures              bool    // scheduling signatures on (failed jobs' shape prunes later identical ones)
 }
 
@@ -123,8 +126,13 @@ func actEvictWorld(o evictOpts) *evictWorld {
 		if o.elastic && i == 0 {
 			cpus, sts, nds = []float64{cpu, cpu}, []pod_status.PodStatus{pod_status.Running, pod_status.Running}, []string{"n0", "n0"}
 		}
-		for range cpus {
-			total += cpu
+		if o.elasticAtMinimum && i == 0 {
+			cpus, sts, nds = []float64{cpu, cpu}, []pod_status.PodStatus{pod_status.Running, pod_status.Pending}, []string{"n0", ""}
+		}
+		for k := range cpus {
+			if sts[k] != pod_status.Pending {
+				total += cpu
+			}
 		}
 		vp := true
 		if !o.fixedPreemptibleVictims {
@@ -140,11 +148,15 @@ func actEvictWorld(o evictOpts) *evictWorld {
 		ew.victims = append(ew.victims, aj)
 	}
 	nodeCpu := total
-	if o.nodeSlack {
+	if o.slackCpu > 0 {
+		nodeCpu = o.slackCpu + total
+	} else if o.nodeSlack {
 		nodeCpu = nat("n0.cpu") + total
 	}
 	w.addNode("n0", nodeCpu)
-	if o.secondNode {
+	if o.secondNode && o.spareCpu > 0 {
+		w.addNode("n1", o.spareCpu)
+	} else if o.secondNode {
 		w.addNode("n1", nat("n1.cpu"))
 	}
 	pname := "p0"
@@ -152,7 +164,11 @@ func actEvictWorld(o evictOpts) *evictWorld {
 	if !o.fixedPending {
 		pp = vr.AnyBool(pname + ".preemptible")
 	}
-	ew.pending = w.addJob(pname, o.pendingQ, pp, prioOf(pname), 100, 1, []float64{cpuOf(pname)}, []pod_status.PodStatus{pod_status.Pending}, []string{""})
+	pcpu := cpuOf(pname)
+	if o.pendingCpu > 0 {
+		pcpu = o.pendingCpu
+	}
+	ew.pending = w.addJob(pname, o.pendingQ, pp, prioOf(pname), 100, 1, []float64{pcpu}, []pod_status.PodStatus{pod_status.Pending}, []string{""})
 	for i := 0; i < o.morePending; i++ {
 		n := vs.Name("p", i+1)
 		pq := o.pendingQ
@@ -534,4 +550,23 @@ func VerifC15_StrictReclaimNeedsAReason() {
 	reclaim.New().Execute(w.ssn)
 	w.observe()
 	w.assertReclaimFair()
+}
+
+// VerifC06_ReclaimMovesProtectedElasticVictim: an elastic workload running at its minimum size
+// (one running pod, one pending pod, minimum 1) inside its reclaim min-runtime must not lose its
+// running pod - also when the solver could re-place that pod on a spare node the pending job cannot
+// use (consolidating reclaim).
+// BOUND: 2 nodes (n0: the victim's 16 milli-cpu pod plus 16 free; n1: 16 free - room for the victim's pod, not for the pending job); pending job of 32 milli-cpu in qa; victim in qb with symbolic age and reclaim min-runtimes (0..63 h) on qb and d; symbolic quotas and fair shares
+func VerifC06_ReclaimMovesProtectedElasticVictim() {
+	w := actEvictWorld(evictOpts{bits: 6, nVictims: 1, victimQ: []string{"qb"}, pendingQ: "qa", sameCpu: true, fixedCpu: 16, pendingCpu: 32, elasticAtMinimum: true,
+		minRuntime: true, fixedPending: true, fixedPreemptibleVictims: true, secondNode: true, slackCpu: 16, spareCpu: 16})
+	reclaim.New().Execute(w.ssn)
+	w.observe()
+	v := w.victims[0]
+	n, _ := w.evictedOf(v)
+	if n > 0 && v.ageH < w.resolvedMinRuntimeH(v, true) {
+		// evicting its only running pod takes the protected workload below its minimum
+		vr.Assert(false, "C06.reclaim-action-respects-min-runtime")
+	}
+	w.assertVictimsEligible(true, "reclaim")
 }
